@@ -211,6 +211,30 @@ func (a *auditor) check(in, role string, i int, d gdesc, plat int) ([]byte, bool
 	return content, present
 }
 
+// isReferrerList recognises the index a layout stores under a fall-back tag: an index (no config, no layers)
+// with at least one entry, every entry of which names a stored manifest that has a subject.
+func isReferrerList(st store, dig string) bool {
+	b, ok := st.get(dig)
+	if !ok {
+		return false
+	}
+	var m gman
+	if json.Unmarshal(b, &m) != nil || m.Config != nil || len(m.Layers) > 0 || len(m.Manifests) == 0 {
+		return false
+	}
+	for _, e := range m.Manifests {
+		eb, ok := st.get(e.Digest)
+		if !ok {
+			return false
+		}
+		var em gman
+		if json.Unmarshal(eb, &em) != nil || em.Subject == nil {
+			return false
+		}
+	}
+	return true
+}
+
 func fallbackTag(dig string) string {
 	alg, hx, _ := strings.Cut(dig, ":")
 	if len(hx) > 64 {
